@@ -637,11 +637,9 @@ fn partial_liquidation(
         .checked_div(config.decimals)
         .unwrap();
 
-    let partial_asset_limit = quote_asset_limit
-        .checked_mul(config.partial_liquidation_ratio)
-        .unwrap()
-        .checked_div(config.decimals)
-        .unwrap();
+    // full-precision product: a caller's limit may be as large as the type allows
+    let partial_asset_limit =
+        quote_asset_limit.multiply_ratio(config.partial_liquidation_ratio, config.decimals);
 
     let current_notional = query_vamm_output_amount(
         &deps.as_ref(),
